@@ -85,7 +85,8 @@ CHECKS.update({
     "C05": dict(
         technique="same pipeline as C04; verdict = Message!ParseMsg(schema, bytes) equals the abstract message the value was built from (presence-aware), cross-checked with dynamicpb",
         text="the bytes of every C04 case are parsed by the specification's reference unmarshal from the schema alone and must equal the original abstract message including field "
-             "presence (no phantom fields, nothing dropped, no value altered); dynamicpb parses the same bytes and must agree with the specification.",
+             "presence (no phantom fields, nothing dropped, no value altered); dynamicpb parses the same bytes and must agree with the specification; an extension declared in another file "
+             "than its extendee (descriptor unknown to the generated code) set on the message must be in the bytes (recorded finding: it is dropped).",
         note=GEN_NOTE, ref="7 (C05)"),
     "C06": dict(
         technique="TLA+ spec (Message!ParseMsg with merge / last-wins / packed-unpacked / map-entry semantics, validated by MCMessage's concatenation law) + TLC trace validation of generated Unmarshal on legal encoding variants",
@@ -103,8 +104,9 @@ CHECKS.update({
         note=GEN_NOTE + "; allocation measured with runtime.ReadMemStats", ref="7 (C08)"),
     "C16": dict(
         technique="TLA+ spec (Generator: documented naming, GenOK) + TLC model checking of the naming function (MCGenerator, non-injectivity kept as expected violation) + TLC judging one recorded plug-in run per corpus file x flavour x option set",
-        text="exhaustive over the corpus product (87 schema files x {gogo, google-v2} x 3 option sets): the plug-in must succeed twice (different cwd, GOMAXPROCS, TZ) with byte-identical "
-             "output, emit each documented name exactly once, and the output must parse (go/parser) and compile with the runtime's own generated types (go build).",
+        text="exhaustive over the corpus product (90 schema files x {gogo, google-v2} x 3 option sets): the plug-in must succeed twice (different cwd, GOMAXPROCS, TZ) with byte-identical "
+             "output, emit each documented name exactly once, emit the same bytes for a file when it is the second file of a two-file request (Generator!Compositional; GenLoop.tla models "
+             "the per-file loop of the plug-in process and keeps 'parse the templates once' as an expected violation), and the output must parse (go/parser) and compile with the runtime's own generated types (go build).",
         note="trusted: TLC, go/parser and go build as sensors for 'valid Go that compiles'; the runtime generators (protoc-gen-go, protoc-gen-gogo) driven without protoc through the plug-in protocol",
         ref="7 (C16), 5"),
     "C17": dict(
@@ -122,7 +124,8 @@ CHECKS.update({
         text="seeded random histories over {set, clear, grow, shrink, set nested, Size, Marshal, MarshalTo, csproto.Size/Marshal, runtime Size/Marshal, Unmarshal, Reset, Clone} on generated "
              "types of three flavours; after every step the object is projected and a fresh deep copy is built by the walkers and marshaled - every Size/Marshal must equal the fresh copy's; "
              "the observed cache word must equal the implementation model's prediction (drift) and the known stale-cache deviation only explains events the model predicts; N goroutines call "
-             "Size/Marshal on a frozen message under the race detector.",
+             "Size/Marshal on a frozen message under the race detector; messages WITHOUT generated code (marshal.go / sizeof.go delegate to the runtime) get histories of "
+             "csproto / runtime / gRPC-codec sizing and marshaling calls and in-place growth of a nested message, ended by csproto.Marshal with and without a Size call before it (plainhist).",
         note=GEN_NOTE + "; the size-cache word is read with reflect/unsafe from the generated struct (sizeCache / XXX_sizecache)", ref="7 (C09), Appendix D"),
     "C10": dict(
         technique="TLC trace validation of Unmarshal -> project -> clobber/truncate/recycle the input buffer -> project events on generated types (TraceGen!A10) and of lazyproto accessor values "
@@ -151,9 +154,11 @@ CHECKS.update({
     "C12": dict(
         technique="TLA+ spec (Extensions: abstract extension state) + TLC enumerating every Set/Clear/ClearAll script of bounded depth (MCExtensions) replayed on real messages + TLC trace "
                   "validation of all observations after every step (TraceDispatch!ExtOK)",
-        text="TLC-generated scripts over three extension slots x two values are replayed on the extendable corpus message of each flavour under five slot-to-kind mappings (int32, string, "
-             "message, enum, bytes, sint64, fixed32, double, bool ...); after each step Has/Get/Range/field-number/marshaled bytes/runtime's own Has must equal the model state; mismatching "
-             "descriptor probes (descriptor of another runtime) must give false/error and leave the message untouched.",
+        text="TLC-generated scripts over three extension slots x two values plus a LATE-BOUND slot (an extension that arrived in encoded form because its descriptor was unknown when the "
+             "owning runtime decoded the message: arrive / getlate / setlate / clearlate; raw and decoded representation, the legacy google-v1 deviation LateDecodes = FALSE named in the model) "
+             "are replayed on the extendable corpus message of each flavour under six slot-to-kind mappings (int32, string, message, enum, bytes, sint64, fixed32, double, bool, extensions with "
+             "explicit defaults ...); after each step Has/Get/Range/field-number/marshaled bytes/runtime's own Has must equal the model state; mismatching "
+             "descriptor probes (descriptor of another runtime, same and different field number) must give false/error and leave the message untouched.",
         note="trusted: TLC, the owning runtime's extension API as oracle; the size-cache word is zeroed before the marshal observation (C09's recorded finding is not C12's)", ref="7 (C12)"),
     "C18": dict(
         technique="TLA+ implementation-shaped model of one adapter call (JsonAdapter: nil check, delegation, detection order, per-runtime option wiring) + TLC model checking of the "
